@@ -299,17 +299,17 @@ class MATCHConv2d(nn.Conv2d, MATCHModule):
         :type kernel_size: int
         """
         if pad_dim == 0:
-            padded_weights = torch.zeros(self.out_channels, self.in_channels,
+            padded_weights = torch.zeros(self.out_channels, self.in_channels // self.groups,
                                          kernel_size * dilation - (dilation - 1),
                                          1,
                                          device=self.device)
         else:
-            padded_weights = torch.zeros(self.out_channels, self.in_channels,
+            padded_weights = torch.zeros(self.out_channels, self.in_channels // self.groups,
                                          1,
                                          kernel_size * dilation - (dilation - 1),
                                          device=self.device)
         for c_out in range(self.out_channels):
-            for c_in in range(self.in_channels):
+            for c_in in range(self.in_channels // self.groups):
                 for i in range(kernel_size):
                     if pad_dim == 0:
                         padded_weights[c_out, c_in, i * dilation, 0] = self.weight[c_out, c_in, i, 0]
